@@ -123,6 +123,7 @@ type c13Opt struct {
 	secondShutdown bool
 	fireDeadline   bool // S4: an environment thread lets one pending read deadline expire at any point
 	badReader      bool // S5: DecorateReader returns a Reader without ReadPacketConn: the serve call fails at once
+	restart        bool // S9: the Server value has been through a complete start / Shutdown cycle before the scenario proper
 	both           bool // S8: the Server holds a PacketConn and a Listener
 	handlerCloses  bool // S7: the handler closes the connection through ResponseWriter.Close after (or instead of) its reply
 }
@@ -211,6 +212,32 @@ func c13Scenario(name string, o c13Opt) *e2x.Scenario {
 				}
 				vsched.Logf("exit %d", q.Id)
 			})
+			if o.restart {
+				// first life of the Server value: start, wait until it runs, shut it down, wait for the serve call
+				var firstErr error
+				firstRet := false
+				vsched.GoNamed("serve0", func() {
+					firstErr = srv.ActivateAndServe()
+					firstRet = true
+				})
+				vsched.Point("await-first-start", func() bool { return started })
+				if err := srv.Shutdown(); err != nil {
+					vsched.Logf("first-shutdown-error %v", err)
+				}
+				vsched.Point("await-first-serve-return", func() bool { return firstRet })
+				if firstErr != nil {
+					vsched.Logf("first-serve-error %v", firstErr)
+				}
+				// second life on fresh sockets
+				started = false
+				if o.transport == "tcp" {
+					ln = simnet.NewListener("ln2")
+					srv.Listener = ln
+				} else {
+					pc = simnet.NewPacketConn("pc2")
+					srv.PacketConn = pc
+				}
+			}
 			vsched.GoNamed("serve", func() {
 				serveErr = srv.ActivateAndServe()
 				serveRet = true
@@ -345,6 +372,9 @@ func c13Scenario(name string, o c13Opt) *e2x.Scenario {
 				}
 			}
 			for _, l := range log {
+				if strings.HasPrefix(l, "first-shutdown-error") || strings.HasPrefix(l, "first-serve-error") {
+					v["first-life-failed"] = "the start / Shutdown cycle before the scenario proper did not go through: " + l
+				}
 				if strings.HasPrefix(l, "left-goroutine ") {
 					v["goroutine-alive-after-shutdown"] = "when Shutdown returned nil a goroutine spawned by the server was still running: " + strings.TrimPrefix(l, "left-goroutine ")
 				}
@@ -483,6 +513,8 @@ func c13Spaces(c *fw.Ctx) {
 		{"S4/pc/1-client+read-timeout", c13Opt{transport: "pc", clients: []string{"full"}, fireDeadline: true}, 1, 2},
 		{"S7/tcp/handler-closes-connection", c13Opt{transport: "tcp", clients: []string{"full"}, handlerCloses: true}, 2, 3},
 		{"S7/pc/handler-closes-writer", c13Opt{transport: "pc", clients: []string{"full"}, handlerCloses: true}, 1, 2},
+		{"S9/tcp/restarted-server+1-client", c13Opt{transport: "tcp", restart: true, clients: []string{"full"}}, 2, 3},
+		{"S9/pc/restarted-server+1-client", c13Opt{transport: "pc", restart: true, clients: []string{"full"}}, 2, 3},
 		{"S8/pc+listener/1-client", c13Opt{transport: "pc", both: true, clients: []string{"full"}}, 1, 2},
 		{"S8/pc+listener/0-clients", c13Opt{transport: "pc", both: true}, 100, 100},
 		{"S5/pc/reader-without-ReadPacketConn", c13Opt{transport: "pc", badReader: true}, 100, 100},
